@@ -120,6 +120,9 @@ var storeCtxAll bool
 // qCancelAll makes the cancel/block faults of enumerateFaults cancel through Query.Cancel.
 var qCancelAll bool
 
+// ownErrAll: the context-honouring storage reports aborted calls with an error of its own.
+var ownErrAll bool
+
 var afterCase = core.Case{Q: `sum by (l) (b)`, W: core.Range(10000, 30000, 3), O: core.Opts{Optimizers: "none"}}
 
 func runFault(cs *core.Case, f mstore.Fault) faultObs {
@@ -170,7 +173,7 @@ func enumerateFaults(c *check.Ctx, prop, sub string, kinds map[string]bool, acti
 	c.Rep.Bounds[sub+":actions"] = actions
 	for _, v := range vs {
 		for _, w := range windows {
-			cs := &core.Case{Q: v.q, Data: data, W: w, O: core.Opts{Optimizers: "none"}, Note: sub, StoreCtx: storeCtxAll, QCancel: qCancelAll}
+			cs := &core.Case{Q: v.q, Data: data, W: w, O: core.Opts{Optimizers: "none"}, Note: sub, StoreCtx: storeCtxAll, QCancel: qCancelAll, StoreOwnErr: ownErrAll}
 			if v.ndist > 0 {
 				cs.NDist = v.ndist
 				cs.Dist = []int{0, 1, 0, 1, 0, 1, 0, 1}
@@ -407,6 +410,7 @@ func init() {
 	check.Replayers["enum:C13/fault-string"] = faultReplayer(c13StringOracle)
 	check.Replayers["enum:C15/fault"] = faultReplayer(c15Oracle)
 	check.Replayers["enum:C17/fault"] = faultReplayer(c17Oracle)
+	check.Replayers["enum:C17/fault-close"] = faultReplayer(c17Oracle)
 	check.Replayers["enum:C17/labels"] = func(f *check.Failure) (string, string) {
 		o := core.RunEngine(f.Case, storeFor(f.Case))
 		if len(o.LabelsModified) > 0 {
@@ -417,6 +421,8 @@ func init() {
 	check.Replayers["enum:C14/cancel"] = faultReplayer(c14EnumOracle)
 	check.Replayers["enum:C14/cancel+storectx"] = faultReplayer(c14EnumOracle)
 	check.Replayers["enum:C14/qcancel+storectx"] = faultReplayer(c14EnumOracle)
+	check.Replayers["enum:C14/qcancel+ownerr"] = faultReplayer(c14EnumOracle)
+	check.Replayers["enum:C14/cancel+ownerr"] = faultReplayer(c14EnumOracle)
 
 	windows := []core.Window{core.Range(10000, 30000, 12), core.Instant(45000), core.Range(0, 45000, 3)}
 
@@ -440,6 +446,8 @@ func init() {
 	})
 	check.Register("C17/fault", func(c *check.Ctx) {
 		enumerateFaults(c, "C17", "C17/fault", allKinds, []string{"error", "panic-runtime", "cancel"}, c17Oracle, deep(c), false)
+		// faults in Querier.Close itself
+		enumerateFaults(c, "C17", "C17/fault-close", map[string]bool{"close": true}, []string{"error", "panic-runtime", "cancel"}, c17Oracle, windows[:2], false)
 		c17Histories(c)
 		c17Labels(c)
 	})
@@ -453,6 +461,13 @@ func init() {
 		qCancelAll = true
 		defer func() { qCancelAll = false }()
 		enumerateFaults(c, "C14", "C14/qcancel+storectx", allKinds, []string{"cancel", "block"}, c14EnumOracle, windows[:2], true)
+		// and over a storage that reports the aborted call with an error of its own: what
+		// Exec returns is still the context's error
+		ownErrAll = true
+		defer func() { ownErrAll = false }()
+		enumerateFaults(c, "C14", "C14/qcancel+ownerr", allKinds, []string{"block", "cancel"}, c14EnumOracle, windows[:2], false)
+		qCancelAll = false
+		enumerateFaults(c, "C14", "C14/cancel+ownerr", allKinds, []string{"block", "cancel"}, c14EnumOracle, windows[:1], false)
 	})
 	check.Register("C13/params", c13Params)
 }
